@@ -95,3 +95,46 @@ def gen_lazy():
     open(p, 'w').write(head + '//@GENERATED-LAZY\n' + '\n'.join(out3) + '\n' + rest)
     print('lazy', len(out3) // 3)
 gen_lazy()
+
+def gen_keys():
+    out = []
+    for n in range(0, 14):
+        tier = 'quick' if n <= 6 else 'thorough'
+        h = 'k_c02_keys_len%d' % n
+        out.append('    //@ob name=C02.keys.len%d harness=%s props=C02 tier=%s strength=bounded bound="every ASCII key of exactly %d bytes (all 128^%d of them, symbolic); longest operator name has 12" fns=op::OPERATOR_MAP,op::DATA_OPERATOR_MAP,op::LAZY_OPERATOR_MAP replay=generic timeout=300' % (n, h, tier, n, n))
+        out.append('    //@ desc="for every key of this length: table.get(key) is Some iff key is exactly one of the operator names of that table (no prefix, case variant or padded spelling), on the real phf code"')
+        out.append('    key_harness!(%s, %d);' % (h, n))
+    p = os.path.join(VERIF, 'kani', 'op__mod.rs')
+    s = open(p).read()
+    head, tail = s.split('//@GENERATED-KEYS', 1)
+    rest = tail[tail.index('//@END-GENERATED-KEYS'):]
+    open(p, 'w').write(head + '//@GENERATED-KEYS\n' + '\n'.join(out) + '\n' + rest)
+gen_keys()
+
+
+def gen_names():
+    EAGER = ["==", "!=", "===", "!==", "!", "!!", "<", "<=", ">", ">=", "+", "-", "*", "/", "%", "max", "min", "merge", "in", "cat", "substr", "log"]
+    DATA = ["var", "missing", "missing_some"]
+    LAZY = ["if", "?:", "or", "and", "map", "filter", "reduce", "all", "some", "none"]
+    allnames = [(n, 0) for n in EAGER] + [(n, 1) for n in DATA] + [(n, 2) for n in LAZY]
+    out = []
+    # codegen cost is per harness (every table entry function is reachable), so names are grouped 5 per harness
+    for gi in range(0, len(allnames), 5):
+        grp = allnames[gi:gi + 5]
+        h = 'k_c03_names_%d' % (gi // 5)
+        names = ' '.join('`%s`' % n for n, _ in grp)
+        extra = ',C05' if any(n in ('if', '?:') for n, _ in grp) else ''
+        out.append('    //@ob name=C03.table.names%d harness=%s props=C03,C02%s strength=complete fns=op::OPERATOR_MAP,op::DATA_OPERATOR_MAP,op::LAZY_OPERATOR_MAP,op::NumParams::is_valid_len,op::NumParams::can_accept_unary replay=generic timeout=400' % (gi // 5, h, extra))
+        out.append('    //@ desc="%s: each is a key of exactly its own compiled table, carries its own symbol, accepts n operands iff n is in its documented set for EVERY usize n, and accepts the unbracketed form whenever it accepts one operand"' % names)
+        out.append('    #[cfg_attr(kani, kani::proof)]')
+        out.append('    #[cfg_attr(kani, kani::unwind(24))]')
+        out.append('    pub(crate) fn %s() {' % h)
+        for n, t in grp:
+            out.append('        check_name("%s", %d);' % (n, t))
+        out.append('    }')
+    p = os.path.join(VERIF, 'kani', 'op__mod.rs')
+    s = open(p).read()
+    head, tail = s.split('//@GENERATED-NAMES', 1)
+    rest = tail[tail.index('//@END-GENERATED-NAMES'):]
+    open(p, 'w').write(head + '//@GENERATED-NAMES\n' + '\n'.join(out) + '\n' + rest)
+gen_names()
